@@ -571,9 +571,11 @@ func (u *simUI) IsTerminal() bool                      { return u.term }
 func (u *simUI) WantBrowser() bool                     { return u.browser }
 func (u *simUI) SetAutoComplete(c func(string) string) { u.complete = c }
 
-func (u *simUI) transcript(from int) string {
+func (u *simUI) transcript(from int) string { return u.transcriptRange(from, len(u.out)) }
+
+func (u *simUI) transcriptRange(from, to int) string {
 	var sb strings.Builder
-	for _, l := range u.out[from:] {
+	for _, l := range u.out[from:to] {
 		if l.Err {
 			sb.WriteString("E:")
 		} else {
